@@ -64,6 +64,8 @@ class Block:
         self.contract = None
         self.assume = False
         self.finding = None
+        self.stmts = False      # //@extract-stmts: a statement range of the fn body wrapped in a generated function
+        self.frm = self.after = self.to = self.sig = None
         self.alt = None      # (path, spec) used when the primary item is absent (//@extract-or A || B)
 
 
@@ -96,6 +98,7 @@ def parse_template(text):
                 parts = st.split(None, 2)
                 cur = Block(parts[1], parts[2].strip())
                 cur.alt = alt
+                cur.stmts = parts[0] == "//@extract-stmts"
                 mode = None
             elif st.startswith("//@assume ") or st.startswith("//@assume-opt "):
                 # //@assume <contract> <path> <spec>   (one-line block)
@@ -160,6 +163,13 @@ def parse_template(text):
             elif cmd == "subst":
                 a, b = shlex.split(arg)
                 cur.subst.append((a, b))
+            elif cmd in ("from", "after", "to"):
+                a = shlex.split(arg)
+                if len(a) != 1:
+                    raise ValueError("bad anchor directive: " + line)
+                setattr(cur, "frm" if cmd == "from" else cmd, a[0])
+            elif cmd == "sig":
+                cur.sig = arg.strip()
             elif cmd == "trait":
                 cur.trait = arg.strip() or "|"
             elif cmd == "rename":
@@ -509,6 +519,43 @@ def generate(unit, probe=False, repo=None):
             drops.append(f"extract-or: {b.path} {b.spec} is absent; emitted instead: {b.alt[0]} {b.alt[1]}")
             # loop invariants / closure contracts / hints are written for the primary text: not applicable to the stand-in
             b.loops, b.loopvars, b.closures, b.hints = {}, {}, {}, []
+        if b.stmts:
+            # a contiguous statement range of the function body, verbatim, as the body of a generated wrapper function
+            # whose (hand-written) signature names its parameters like the locals the statements use
+            if not b.sig or not b.to or not (b.frm or b.after):
+                raise ValueError(f"//@extract-stmts {b.spec}: needs //@sig, //@to and //@from or //@after")
+            if item.kind != "fn":
+                raise ExtractError(f"lost anchor: {b.path} :: {b.spec} is not a fn")
+            rng, la, lb = extract.stmt_range(item, b.frm, b.after, b.to)
+            for (x, y) in b.subst:
+                if x in rng:
+                    rng = rng.replace(x, y)
+                    drops.append(f"path-subst {x!r}->{y!r}")
+            m = re.match(r"\s*(?:unsafe\s+)?fn\s+(\w+)", b.sig)
+            if not m:
+                raise ValueError("bad //@sig: " + b.sig)
+            wname = m.group(1)
+            if b.finding:
+                wname2 = f"{wname}__finding_{b.finding}"
+                b.sig = b.sig.replace(wname, wname2, 1)
+                wname = wname2
+            has_req = bool(re.search(r"\brequires\b", b.clauses))
+            do_probe = probe and has_req and "noprobe" not in b.flags
+            body_first = (" proof { assert(false); } " if do_probe else "") + (("\n" + b.first.rstrip("\n") + "\n") if b.first else "")
+            drops.append(f"statement range lines {la}-{lb} of fn {item.name} wrapped in the generated function `{wname}` "
+                         f"(signature hand-written: parameters named like the locals the statements use)")
+            emitted = b.attrs + b.sig + "\n" + b.clauses.rstrip("\n") + "\n{" + body_first + "\n" + rng.rstrip("\n") + "\n}\n\n"
+            start = line + b.attrs.count("\n")
+            line += emitted.count("\n")
+            out.append(emitted)
+            meta["functions"].append({
+                "path": b.path, "spec": b.spec + f" [stmts {la}-{lb}]", "kind": "fn", "name": wname, "parent": None,
+                "src_line": la, "sha256": extract.sha(rng), "out_lines": [start, line - 1], "has_requires": has_req,
+                "contract": bool(b.clauses.strip()), "drops": drops, "finding": b.finding,
+            })
+            if do_probe:
+                meta["probes"].append(wname)
+            continue
         if b.finding and not b.rename:
             b.rename = f"{item.name}__finding_{b.finding}"
         if b.contract:
